@@ -129,7 +129,7 @@ class Source:
             out.append((m.start(), open_i, close_i))
         return out
 
-    def find_fn(self, path, trait=None):
+    def find_fn(self, path, trait=None, features=None):
         parts = path.split("::")
         fn = parts[-1]
         rx = r"(?:pub(?:\([^)]*\))?\s+)?(?:const\s+)?(?:unsafe\s+)?fn\s+%s\b" % re.escape(fn)
@@ -139,6 +139,17 @@ class Source:
         else:
             for (_s, o, c) in self.impl_blocks(parts[-2], trait):
                 cands += self._top_matches(rx, o + 1, c, 0)
+        if len(cands) > 1 and features is not None:
+            # several cfg-alternatives of the same fn: keep those whose #[cfg] attributes hold
+            live = []
+            for c in cands:
+                attrs = self.text[self._with_attrs(c.start()):c.start()]
+                ok = True
+                for m in re.finditer(r"#\[cfg\((.*)\)\]", attrs):
+                    ok = ok and eval_cfg(m.group(1), features)
+                if ok:
+                    live.append(c)
+            cands = live
         if len(cands) != 1:
             raise Undecided("lost anchor: fn %s found %d times in %s" % (path, len(cands), self.relpath))
         start = cands[0].start()
@@ -295,7 +306,7 @@ class Extraction:
 
     def extract_fn(self, file, path, contract_lines, ret=None, trait=None, external_body=False):
         s = self.src(file)
-        a, st, body_open, end = s.find_fn(path, trait)
+        a, st, body_open, end = s.find_fn(path, trait, self.features)
         raw = s.text[a:end]
         rec = self.new_rec(file, "fn %s" % path, raw)
         pre = self.clean(s.text[a:st], rec)  # attributes / docs above
